@@ -402,29 +402,58 @@ class TS:
             self._sigcache[k] = self.val(self.nl.signals[sig])
         return self._sigcache[k]
 
+    @staticmethod
+    def _strip(path):
+        import re
+        return '.'.join(re.sub(r'\$\d+$', '', comp) for comp in path.split('.'))
+
+    def resolve(self, path):
+        """Exact path, or the path modulo Amaranth's `$N` de-duplication suffixes (which depend on unrelated code); when
+        several signals share the stripped name, the one backed by a flip-flop is meant."""
+        if path in self.paths:
+            return path
+        want = self._strip(path)
+        cands = [p for p in self.paths if self._strip(p) == want]
+        if len(cands) > 1:
+            ffsigs = {id(s) for s in self.ff_signal.values()}
+            regs = [p for p in cands if id(self.paths[p]) in ffsigs]
+            if len(regs) == 1:
+                cands = regs
+        if len(cands) == 1:
+            return cands[0]
+        if not cands:
+            raise BindingError(f"no signal at path {path!r}")
+        raise BindingError(f"ambiguous signal path {path!r}: {cands}")
+
     def sig(self, path):
         if path in self.inputs: return self.inputs[path]
         if path in self.outputs: return self.outputs[path]
-        if path not in self.paths:
-            raise BindingError(f"no signal at path {path!r}")
-        return self.of(self.paths[path])
+        return self.of(self.paths[self.resolve(path)])
 
     def key(self, name):
         """the global (prefixed) name of an input port, as used in traces"""
         return self.prefix + name
 
     def has(self, path):
-        return path in self.inputs or path in self.outputs or path in self.paths
+        if path in self.inputs or path in self.outputs or path in self.paths:
+            return True
+        try:
+            self.resolve(path)
+            return True
+        except BindingError:
+            return False
 
     def fsm(self, path="fsm_state"):
-        if path not in self.paths:
-            raise BindingError(f"no FSM state signal at {path!r}")
+        path = self.resolve(path)
         s = self.paths[path]
         return FSM(self, path, s, self.of(s))
 
     def mem(self, path):
         if path not in self.mems:
-            raise BindingError(f"no memory {path!r} (have {list(self.mems)})")
+            c_ = [p for p in self.mems if self._strip(p) == self._strip(path)]
+            if len(c_) != 1:
+                raise BindingError(f"no memory {path!r} (have {list(self.mems)})")
+            path = c_[0]
         idx = self.mems[path]
         return self.state[('mem', idx)], self.nl.cells[idx]
 
